@@ -1,9 +1,512 @@
-(* Props/C08.v — placeholder while the pipeline is brought up *)
+(* Props/C08.v — format() renders every token correctly and from_format() inverts it.
+   Only theorem statements; every proof is `exact <lemma>` (Proofs/C08Decimal.v, C08Facts.v, C08SourceTie.v).
+   Model: Model/Formatter.v (format side), Model/FormatterParse.v (from_format side); all tables (token list, _TOKENS_RULES, locales,
+   regexes, named formats) are regenerated from /repo on every run (Gen/FormatterTables.v, Gen/LocaleTables.v).
+   Strings are lists of code points; render_d n = f"{n:d}", render_0wd w n = f"{n:0<w>d}", py_int = int(text).
+   Calendar quantities are Spec/Cal.v (CPython's datetime): ymd2ord, iso_weekday, weekday0, days_before_month. *)
 From Coq Require Import ZArith List Bool.
-From PV Require Import Lib.PyBase Model.FormatterBase Model.Formatter.
+From PV Require Import Lib.PyBase Spec.Cal Model.FormatterBase Gen.FormatterTables Gen.LocaleTables Model.Formatter Model.FormatterParse.
+From PV Require Import Proofs.C08Decimal Proofs.C08Facts Proofs.C08SourceTie.
 Import ListNotations.
 Open Scope Z_scope.
 
-Theorem render_d_zero : render_d 0 = [48].
-Proof. exact eq_refl. Qed.
-Print Assumptions render_d_zero.
+(* the padded rendering is a decimal numeral of n ... *)
+Theorem render_decimal_value : forall w n, 0 <= n -> value_of_digits (render_0wd w n) = n.
+Proof. exact render_0wd_value. Qed.
+Print Assumptions render_decimal_value.
+
+(* ... made of ASCII digits only ... *)
+Theorem render_decimal_digits : forall w n, 0 <= n -> Forall (fun c => 48 <= c <= 57) (render_0wd w n).
+Proof. exact render_0wd_digits. Qed.
+Print Assumptions render_decimal_digits.
+
+(* ... of exactly w characters when n < 10^w *)
+Theorem render_decimal_width : forall (w : nat) n, 0 <= n < 10 ^ Z.of_nat w -> (1 <= w)%nat -> length (render_0wd (Z.of_nat w) n) = w.
+Proof. exact render_0wd_length. Qed.
+Print Assumptions render_decimal_width.
+
+(* int() inverts the padded rendering *)
+Theorem parse_render_decimal : forall w n, 0 <= n -> py_int (render_0wd w n) = Some n.
+Proof. exact py_int_render_0wd. Qed.
+Print Assumptions parse_render_decimal.
+
+(* int(str(n)) = n for every integer, negative ones included *)
+Theorem parse_render_int : forall n, py_int (render_d n) = Some n.
+Proof. exact py_int_render_d. Qed.
+Print Assumptions parse_render_int.
+
+Theorem year_is_four_digits : forall y, 1000 <= y <= 9999 -> render_d y = render_0wd 4 y.
+Proof. exact render_d_year4. Qed.
+Print Assumptions year_is_four_digits.
+
+(* token YYYY *)
+Theorem token_YYYY_spec : forall rec loc t, 1000 <= t_year t <= 9999 -> format_token rec loc t [89;89;89;89] = Ok (render_0wd 4 (t_year t)).
+Proof. exact tok_YYYY_4. Qed.
+Print Assumptions token_YYYY_spec.
+
+(* token YY *)
+Theorem token_YY_spec : forall rec loc t, 1000 <= t_year t <= 9999 -> format_token rec loc t [89;89] = Ok (render_0wd 2 (t_year t mod 100)).
+Proof. exact tok_YY. Qed.
+Print Assumptions token_YY_spec.
+
+(* token Y *)
+Theorem token_Y_spec : forall rec loc t, format_token rec loc t [89] = Ok (render_d (t_year t)).
+Proof. exact tok_Y. Qed.
+Print Assumptions token_Y_spec.
+
+(* token Q *)
+Theorem token_Q_spec : forall rec loc t, format_token rec loc t [81] = Ok (render_d ((t_month t + 2) / 3)).
+Proof. exact tok_Q. Qed.
+Print Assumptions token_Q_spec.
+
+(* token MM *)
+Theorem token_MM_spec : forall rec loc t, format_token rec loc t [77;77] = Ok (render_0wd 2 (t_month t)).
+Proof. exact tok_MM. Qed.
+Print Assumptions token_MM_spec.
+
+(* token M *)
+Theorem token_M_spec : forall rec loc t, format_token rec loc t [77] = Ok (render_d (t_month t)).
+Proof. exact tok_M. Qed.
+Print Assumptions token_M_spec.
+
+(* token DD *)
+Theorem token_DD_spec : forall rec loc t, format_token rec loc t [68;68] = Ok (render_0wd 2 (t_day t)).
+Proof. exact tok_DD. Qed.
+Print Assumptions token_DD_spec.
+
+(* token D *)
+Theorem token_D_spec : forall rec loc t, format_token rec loc t [68] = Ok (render_d (t_day t)).
+Proof. exact tok_D. Qed.
+Print Assumptions token_D_spec.
+
+(* token DDDD *)
+Theorem token_DDDD_spec : forall rec loc t, 1 <= t_month t <= 12 -> format_token rec loc t [68;68;68;68] = Ok (render_0wd 3 (days_before_month (t_year t) (t_month t) + t_day t)).
+Proof. exact tok_DDDD. Qed.
+Print Assumptions token_DDDD_spec.
+
+(* token DDD *)
+Theorem token_DDD_spec : forall rec loc t, 1 <= t_month t <= 12 -> format_token rec loc t [68;68;68] = Ok (render_d (days_before_month (t_year t) (t_month t) + t_day t)).
+Proof. exact tok_DDD. Qed.
+Print Assumptions token_DDD_spec.
+
+(* token d *)
+Theorem token_d_spec : forall rec loc t, format_token rec loc t [100] = Ok (render_d (iso_weekday (ymd2ord (t_year t) (t_month t) (t_day t)) mod 7)).
+Proof. exact tok_d. Qed.
+Print Assumptions token_d_spec.
+
+(* token E *)
+Theorem token_E_spec : forall rec loc t, format_token rec loc t [69] = Ok (render_d (iso_weekday (ymd2ord (t_year t) (t_month t) (t_day t)))).
+Proof. exact tok_E. Qed.
+Print Assumptions token_E_spec.
+
+(* token HH *)
+Theorem token_HH_spec : forall rec loc t, format_token rec loc t [72;72] = Ok (render_0wd 2 (t_hour t)).
+Proof. exact tok_HH. Qed.
+Print Assumptions token_HH_spec.
+
+(* token H *)
+Theorem token_H_spec : forall rec loc t, format_token rec loc t [72] = Ok (render_d (t_hour t)).
+Proof. exact tok_H. Qed.
+Print Assumptions token_H_spec.
+
+(* token hh *)
+Theorem token_hh_spec : forall rec loc t, format_token rec loc t [104;104] = Ok (render_0wd 2 (if t_hour t mod 12 =? 0 then 12 else t_hour t mod 12)).
+Proof. exact tok_hh. Qed.
+Print Assumptions token_hh_spec.
+
+(* token h *)
+Theorem token_h_spec : forall rec loc t, format_token rec loc t [104] = Ok (render_d (if t_hour t mod 12 =? 0 then 12 else t_hour t mod 12)).
+Proof. exact tok_h. Qed.
+Print Assumptions token_h_spec.
+
+(* token mm *)
+Theorem token_mm_spec : forall rec loc t, format_token rec loc t [109;109] = Ok (render_0wd 2 (t_minute t)).
+Proof. exact tok_mm. Qed.
+Print Assumptions token_mm_spec.
+
+(* token m *)
+Theorem token_m_spec : forall rec loc t, format_token rec loc t [109] = Ok (render_d (t_minute t)).
+Proof. exact tok_m. Qed.
+Print Assumptions token_m_spec.
+
+(* token ss *)
+Theorem token_ss_spec : forall rec loc t, format_token rec loc t [115;115] = Ok (render_0wd 2 (t_second t)).
+Proof. exact tok_ss. Qed.
+Print Assumptions token_ss_spec.
+
+(* token s *)
+Theorem token_s_spec : forall rec loc t, format_token rec loc t [115] = Ok (render_d (t_second t)).
+Proof. exact tok_s. Qed.
+Print Assumptions token_s_spec.
+
+(* token S *)
+Theorem token_S_spec : forall rec loc t, format_token rec loc t [83] = Ok (render_0wd 1 (t_micro t / 100000)).
+Proof. exact tok_S1. Qed.
+Print Assumptions token_S_spec.
+
+(* token SS *)
+Theorem token_SS_spec : forall rec loc t, format_token rec loc t [83;83] = Ok (render_0wd 2 (t_micro t / 10000)).
+Proof. exact tok_S2. Qed.
+Print Assumptions token_SS_spec.
+
+(* token SSS *)
+Theorem token_SSS_spec : forall rec loc t, format_token rec loc t [83;83;83] = Ok (render_0wd 3 (t_micro t / 1000)).
+Proof. exact tok_S3. Qed.
+Print Assumptions token_SSS_spec.
+
+(* token SSSS *)
+Theorem token_SSSS_spec : forall rec loc t, format_token rec loc t [83;83;83;83] = Ok (render_0wd 4 (t_micro t / 100)).
+Proof. exact tok_S4. Qed.
+Print Assumptions token_SSSS_spec.
+
+(* token SSSSS *)
+Theorem token_SSSSS_spec : forall rec loc t, format_token rec loc t [83;83;83;83;83] = Ok (render_0wd 5 (t_micro t / 10)).
+Proof. exact tok_S5. Qed.
+Print Assumptions token_SSSSS_spec.
+
+(* token SSSSSS *)
+Theorem token_SSSSSS_spec : forall rec loc t, format_token rec loc t [83;83;83;83;83;83] = Ok (render_0wd 6 (t_micro t)).
+Proof. exact tok_S6. Qed.
+Print Assumptions token_SSSSSS_spec.
+
+(* token X *)
+Theorem token_X_spec : forall rec loc t, t_has_tz t = true -> format_token rec loc t [88] = Ok (render_d ((ymd2ord (t_year t) (t_month t) (t_day t) - 719163) * 86400 + t_hour t * 3600 + t_minute t * 60 + t_second t - t_off t)).
+Proof. exact tok_X. Qed.
+Print Assumptions token_X_spec.
+
+(* token x *)
+Theorem token_x_spec : forall rec loc t, t_has_tz t = true -> format_token rec loc t [120] = Ok (render_d (((ymd2ord (t_year t) (t_month t) (t_day t) - 719163) * 86400 + t_hour t * 3600 + t_minute t * 60 + t_second t - t_off t) * 1000 + t_micro t / 1000)).
+Proof. exact tok_x. Qed.
+Print Assumptions token_x_spec.
+
+(* token zz *)
+Theorem token_zz_spec : forall rec loc t, format_token rec loc t [122;122] = Ok ((if t_has_tz t then t_abbr t else [])).
+Proof. exact tok_zz. Qed.
+Print Assumptions token_zz_spec.
+
+(* token z *)
+Theorem token_z_spec : forall rec loc t, format_token rec loc t [122] = Ok ((if t_has_tz t then t_zone t else [])).
+Proof. exact tok_z. Qed.
+Print Assumptions token_z_spec.
+
+(* token Z: sign, hours, colon, minutes of a whole-minute offset *)
+Theorem token_Z_spec : forall rec loc t, t_has_tz t = true -> t_off t mod 60 = 0 ->
+  format_token rec loc t [90] = Ok ((if 0 <=? t_off t then 43 else 45) :: render_0wd 2 (Z.abs (t_off t) / 3600) ++ [58] ++ render_0wd 2 (Z.abs (t_off t) / 60 mod 60)).
+Proof. exact tok_Z_minutes. Qed.
+Print Assumptions token_Z_spec.
+
+Theorem token_ZZ_spec : forall rec loc t, t_has_tz t = true -> t_off t mod 60 = 0 ->
+  format_token rec loc t [90;90] = Ok ((if 0 <=? t_off t then 43 else 45) :: render_0wd 2 (Z.abs (t_off t) / 3600) ++ render_0wd 2 (Z.abs (t_off t) / 60 mod 60)).
+Proof. exact tok_ZZ_minutes. Qed.
+Print Assumptions token_ZZ_spec.
+
+Theorem token_Z_naive : forall t colon, t_has_tz t = false -> format_offset t colon = [].
+Proof. exact format_offset_naive. Qed.
+Print Assumptions token_Z_naive.
+
+(* AM / PM *)
+Theorem token_A_en_spec : forall rec t, format_token rec loc_en t [65] = Ok (if 12 <=? t_hour t then [80;77] else [65;77]).
+Proof. exact tok_A_en. Qed.
+Print Assumptions token_A_en_spec.
+
+(* English month and day names as calendar.month_name / day_name spell them *)
+Theorem token_MMMM_en_spec : forall rec t, 1 <= t_month t <= 12 -> format_token rec loc_en t [77;77;77;77] = Ok (nth (Z.to_nat (t_month t - 1)) en_month_names []).
+Proof. exact tok_MMMM_en. Qed.
+Print Assumptions token_MMMM_en_spec.
+
+Theorem token_MMM_en_spec : forall rec t, 1 <= t_month t <= 12 -> format_token rec loc_en t [77;77;77] = Ok (firstn 3 (nth (Z.to_nat (t_month t - 1)) en_month_names [])).
+Proof. exact tok_MMM_en. Qed.
+Print Assumptions token_MMM_en_spec.
+
+Theorem token_dddd_en_spec : forall rec t, format_token rec loc_en t [100;100;100;100] = Ok (nth (Z.to_nat (weekday0 (ymd2ord (t_year t) (t_month t) (t_day t)))) en_day_names []).
+Proof. exact tok_dddd_en. Qed.
+Print Assumptions token_dddd_en_spec.
+
+Theorem token_Do_spec : forall rec loc t, format_token rec loc t [68;111] = Ok (ordinalize loc (t_day t)).
+Proof. exact tok_Do. Qed.
+Print Assumptions token_Do_spec.
+
+(* in every locale the name tokens are the locale table entry of the month / weekday *)
+Theorem token_names_by_table : forall rec loc t, format_token rec loc t [77;77;77;77] = tbl_get (l_months_wide loc) (t_month t).
+Proof. exact tok_MMMM. Qed.
+Print Assumptions token_names_by_table.
+
+(* all 27 shipped locales: every month and weekday has a non-empty name in every table *)
+Theorem localized_names_total : forall l, In l locales ->
+  (forall m, 1 <= m <= 12 -> (exists c s, tbl_get (l_months_wide l) m = Ok (c :: s)) /\ (exists c s, tbl_get (l_months_abbr l) m = Ok (c :: s))) /\
+  (forall w, 0 <= w <= 6 -> (exists c s, tbl_get (l_days_wide l) w = Ok (c :: s)) /\ (exists c s, tbl_get (l_days_abbr l) w = Ok (c :: s))
+                            /\ (exists c s, tbl_get (l_days_short l) w = Ok (c :: s))).
+Proof. exact localized_names_total. Qed.
+Print Assumptions localized_names_total.
+
+Theorem shipped_locales_count : length locales = 27%nat.
+Proof. exact locales_count. Qed.
+Print Assumptions shipped_locales_count.
+
+Theorem localized_names_injective : forall l, In l locales ->
+  (forall a b x, 1 <= a <= 12 -> 1 <= b <= 12 -> tbl_get (l_months_wide l) a = Ok x -> tbl_get (l_months_wide l) b = Ok x -> a = b) /\
+  (forall a b x, 1 <= a <= 12 -> 1 <= b <= 12 -> tbl_get (l_months_abbr l) a = Ok x -> tbl_get (l_months_abbr l) b = Ok x -> a = b) /\
+  (forall a b x, 0 <= a <= 6 -> 0 <= b <= 6 -> tbl_get (l_days_wide l) a = Ok x -> tbl_get (l_days_wide l) b = Ok x -> a = b).
+Proof. exact localized_names_injective. Qed.
+Print Assumptions localized_names_injective.
+
+(* token e where the locale has week_data (every shipped locale but nl, see nl_is_the_only_locale_without_week_data) *)
+Theorem token_e_partial : forall rec loc t fd, l_first_day loc = Some fd ->
+  format_token rec loc t [101] = Ok (render_d ((weekday0 (ymd2ord (t_year t) (t_month t) (t_day t)) mod 7 - fd) mod 7)).
+Proof. exact tok_e. Qed.
+Print Assumptions token_e_partial.
+
+(* KNOWN FINDING nl-week-data: in locale nl the token raises for every DateTime *)
+Theorem token_e_nl_refuted : forall rec t, format_token rec loc_nl t [101] = Raise E_TypeError.
+Proof. exact nl_e_raises. Qed.
+Print Assumptions token_e_nl_refuted.
+
+Theorem nl_is_the_only_locale_without_week_data : forallb (fun l => match l_first_day l with Some _ => true | None => str_eqb (l_name l) [110;108] end) locales = true.
+Proof. exact nl_is_the_only_one. Qed.
+Print Assumptions nl_is_the_only_locale_without_week_data.
+
+(* [body] is emitted verbatim (body without '[', and no ']' in the rest before the next '['), followed by the rendering of the rest *)
+Theorem escape_verbatim : forall d loc t body rest, ~ In 91 body -> no_rb_before_lb rest = true ->
+  format_loc (S d) loc t (91 :: body ++ 93 :: rest) =
+    bind (render_pieces (format_token (format_loc d loc t) loc t) (tokenize (length (91 :: body ++ 93 :: rest)) rest)) (fun b => Ok (body ++ b)).
+Proof. exact format_bracket_verbatim. Qed.
+Print Assumptions escape_verbatim.
+
+Theorem escape_only_verbatim : forall loc t body, ~ In 91 body -> format_loc 1 loc t (91 :: body ++ [93]) = Ok body.
+Proof. exact format_only_bracket. Qed.
+Print Assumptions escape_only_verbatim.
+
+Theorem backslash_verbatim : forall d loc t c rest, c <> 10 ->
+  format_loc (S d) loc t (92 :: c :: rest) =
+    bind (render_pieces (format_token (format_loc d loc t) loc t) (tokenize (length (92 :: c :: rest)) rest)) (fun b => Ok (c :: b)).
+Proof. exact format_backslash_verbatim. Qed.
+Print Assumptions backslash_verbatim.
+
+(* named formats: the tokenisation of the format string is computed, the fields are symbolic *)
+Theorem named_format_composition_atom : forall t,
+  string_helper [116;111;95;97;116;111;109;95;115;116;114;105;110;103] t =
+  Ok (render_d (t_year t) ++ [45] ++ render_0wd 2 (t_month t) ++ [45] ++ render_0wd 2 (t_day t) ++ [84]
+      ++ render_0wd 2 (t_hour t) ++ [58] ++ render_0wd 2 (t_minute t) ++ [58] ++ render_0wd 2 (t_second t) ++ format_offset t true).
+Proof. exact atom_composition. Qed.
+Print Assumptions named_format_composition_atom.
+
+Theorem named_format_composition_w3c : forall t,
+  string_helper [116;111;95;119;51;99;95;115;116;114;105;110;103] t =
+  Ok (render_d (t_year t) ++ [45] ++ render_0wd 2 (t_month t) ++ [45] ++ render_0wd 2 (t_day t) ++ [84]
+      ++ render_0wd 2 (t_hour t) ++ [58] ++ render_0wd 2 (t_minute t) ++ [58] ++ render_0wd 2 (t_second t) ++ format_offset t true).
+Proof. exact w3c_composition. Qed.
+Print Assumptions named_format_composition_w3c.
+
+Theorem named_format_composition_cookie : forall t,
+  string_helper [116;111;95;99;111;111;107;105;101;95;115;116;114;105;110;103] t =
+  bind (tbl_get (l_days_wide loc_en) (weekday0 (ordn t))) (fun dn =>
+  bind (tbl_get (l_months_abbr loc_en) (t_month t)) (fun mn =>
+  Ok (dn ++ [44] ++ [32] ++ render_0wd 2 (t_day t) ++ [45] ++ mn ++ [45] ++ render_d (t_year t) ++ [32]
+      ++ render_0wd 2 (t_hour t) ++ [58] ++ render_0wd 2 (t_minute t) ++ [58] ++ render_0wd 2 (t_second t) ++ [32] ++ (if t_has_tz t then t_abbr t else [])))).
+Proof. exact cookie_composition. Qed.
+Print Assumptions named_format_composition_cookie.
+
+Theorem named_format_composition_rfc822 : forall t,
+  string_helper [116;111;95;114;102;99;56;50;50;95;115;116;114;105;110;103] t =
+  bind (tbl_get (l_days_abbr loc_en) (weekday0 (ordn t))) (fun dn =>
+  bind (tbl_get (l_months_abbr loc_en) (t_month t)) (fun mn =>
+  Ok (dn ++ [44] ++ [32] ++ render_0wd 2 (t_day t) ++ [32] ++ mn ++ [32] ++ skipn 2 (render_d (t_year t)) ++ [32]
+      ++ render_0wd 2 (t_hour t) ++ [58] ++ render_0wd 2 (t_minute t) ++ [58] ++ render_0wd 2 (t_second t) ++ [32] ++ format_offset t false))).
+Proof. exact rfc822_composition. Qed.
+Print Assumptions named_format_composition_rfc822.
+
+Theorem named_format_composition_rfc850 : forall t,
+  string_helper [116;111;95;114;102;99;56;53;48;95;115;116;114;105;110;103] t =
+  bind (tbl_get (l_days_wide loc_en) (weekday0 (ordn t))) (fun dn =>
+  bind (tbl_get (l_months_abbr loc_en) (t_month t)) (fun mn =>
+  Ok (dn ++ [44] ++ [32] ++ render_0wd 2 (t_day t) ++ [45] ++ mn ++ [45] ++ skipn 2 (render_d (t_year t)) ++ [32]
+      ++ render_0wd 2 (t_hour t) ++ [58] ++ render_0wd 2 (t_minute t) ++ [58] ++ render_0wd 2 (t_second t) ++ [32] ++ (if t_has_tz t then t_abbr t else [])))).
+Proof. exact rfc850_composition. Qed.
+Print Assumptions named_format_composition_rfc850.
+
+Theorem named_format_composition_rfc1036 : forall t,
+  string_helper [116;111;95;114;102;99;49;48;51;54;95;115;116;114;105;110;103] t =
+  bind (tbl_get (l_days_abbr loc_en) (weekday0 (ordn t))) (fun dn =>
+  bind (tbl_get (l_months_abbr loc_en) (t_month t)) (fun mn =>
+  Ok (dn ++ [44] ++ [32] ++ render_0wd 2 (t_day t) ++ [32] ++ mn ++ [32] ++ skipn 2 (render_d (t_year t)) ++ [32]
+      ++ render_0wd 2 (t_hour t) ++ [58] ++ render_0wd 2 (t_minute t) ++ [58] ++ render_0wd 2 (t_second t) ++ [32] ++ format_offset t false))).
+Proof. exact rfc1036_composition. Qed.
+Print Assumptions named_format_composition_rfc1036.
+
+Theorem named_format_composition_rfc1123 : forall t,
+  string_helper [116;111;95;114;102;99;49;49;50;51;95;115;116;114;105;110;103] t =
+  bind (tbl_get (l_days_abbr loc_en) (weekday0 (ordn t))) (fun dn =>
+  bind (tbl_get (l_months_abbr loc_en) (t_month t)) (fun mn =>
+  Ok (dn ++ [44] ++ [32] ++ render_0wd 2 (t_day t) ++ [32] ++ mn ++ [32] ++ render_d (t_year t) ++ [32]
+      ++ render_0wd 2 (t_hour t) ++ [58] ++ render_0wd 2 (t_minute t) ++ [58] ++ render_0wd 2 (t_second t) ++ [32] ++ format_offset t false))).
+Proof. exact rfc1123_composition. Qed.
+Print Assumptions named_format_composition_rfc1123.
+
+Theorem named_format_composition_rfc2822 : forall t,
+  string_helper [116;111;95;114;102;99;50;56;50;50;95;115;116;114;105;110;103] t =
+  bind (tbl_get (l_days_abbr loc_en) (weekday0 (ordn t))) (fun dn =>
+  bind (tbl_get (l_months_abbr loc_en) (t_month t)) (fun mn =>
+  Ok (dn ++ [44] ++ [32] ++ render_0wd 2 (t_day t) ++ [32] ++ mn ++ [32] ++ render_d (t_year t) ++ [32]
+      ++ render_0wd 2 (t_hour t) ++ [58] ++ render_0wd 2 (t_minute t) ++ [58] ++ render_0wd 2 (t_second t) ++ [32] ++ format_offset t false))).
+Proof. exact rfc2822_composition. Qed.
+Print Assumptions named_format_composition_rfc2822.
+
+Theorem named_format_composition_rss : forall t,
+  string_helper [116;111;95;114;115;115;95;115;116;114;105;110;103] t =
+  bind (tbl_get (l_days_abbr loc_en) (weekday0 (ordn t))) (fun dn =>
+  bind (tbl_get (l_months_abbr loc_en) (t_month t)) (fun mn =>
+  Ok (dn ++ [44] ++ [32] ++ render_0wd 2 (t_day t) ++ [32] ++ mn ++ [32] ++ render_d (t_year t) ++ [32]
+      ++ render_0wd 2 (t_hour t) ++ [58] ++ render_0wd 2 (t_minute t) ++ [58] ++ render_0wd 2 (t_second t) ++ [32] ++ format_offset t false))).
+Proof. exact rss_composition. Qed.
+Print Assumptions named_format_composition_rss.
+
+Theorem named_format_composition_rfc3339 : forall t, string_helper [116;111;95;114;102;99;51;51;51;57;95;115;116;114;105;110;103] t = Ok (isoformat_T t).
+Proof. exact rfc3339_composition. Qed.
+Print Assumptions named_format_composition_rfc3339.
+
+Theorem named_format_composition_iso8601 : forall t,
+  string_helper [116;111;95;105;115;111;56;54;48;49;95;115;116;114;105;110;103] t =
+  Ok (if t_has_tz t && str_eqb (t_zone t) UTC_name
+      then replace_all (S (length (isoformat_T t))) (isoformat_T t) plus0000 [90] else isoformat_T t).
+Proof. exact iso8601_composition. Qed.
+Print Assumptions named_format_composition_iso8601.
+
+Theorem named_format_composition_time : forall t,
+  string_helper [116;111;95;116;105;109;101;95;115;116;114;105;110;103] t =
+  Ok (render_0wd 2 (t_hour t) ++ [58] ++ render_0wd 2 (t_minute t) ++ [58] ++ render_0wd 2 (t_second t)).
+Proof. exact time_composition. Qed.
+Print Assumptions named_format_composition_time.
+
+Theorem named_format_composition_datetime : forall t,
+  string_helper [116;111;95;100;97;116;101;116;105;109;101;95;115;116;114;105;110;103] t =
+  Ok (render_d (t_year t) ++ [45] ++ render_0wd 2 (t_month t) ++ [45] ++ render_0wd 2 (t_day t) ++ [32]
+      ++ render_0wd 2 (t_hour t) ++ [58] ++ render_0wd 2 (t_minute t) ++ [58] ++ render_0wd 2 (t_second t)).
+Proof. exact datetime_composition. Qed.
+Print Assumptions named_format_composition_datetime.
+
+Theorem named_format_composition_day_datetime : forall t,
+  string_helper [116;111;95;100;97;121;95;100;97;116;101;116;105;109;101;95;115;116;114;105;110;103] t =
+  bind (tbl_get (l_days_abbr loc_en) (weekday0 (ordn t))) (fun dn =>
+  bind (tbl_get (l_months_abbr loc_en) (t_month t)) (fun mn =>
+  Ok (dn ++ [44] ++ [32] ++ mn ++ [32] ++ render_d (t_day t) ++ [44] ++ [32] ++ render_d (t_year t) ++ [32]
+      ++ render_d (hour12 (t_hour t)) ++ [58] ++ render_0wd 2 (t_minute t) ++ [32]
+      ++ match (if 12 <=? t_hour t then l_pm loc_en else l_am loc_en) with Some s => s | None => [] end))).
+Proof. exact day_datetime_composition. Qed.
+Print Assumptions named_format_composition_day_datetime.
+
+(* from_format, after the match: the captured renderings of YYYY MM DD HH mm ss SSSSSS Z|ZZ go through _get_parsed_value and _check_parsed back to the DateTime's fields and offset (no range assumption beyond non-negative fields and a whole-minute offset below 100 h) *)
+Theorem from_format_values_invert_rendering : forall rs zones now colon t,
+  dt_in_range t ->
+  parse_finish rs zones loc_en (iso_names colon) [iso_caps colon t] now =
+  Ok (t_year t, t_month t, t_day t, t_hour t, t_minute t, t_second t, t_micro t, Some (TzFixed (t_off t))).
+Proof. exact parse_finish_iso. Qed.
+Print Assumptions from_format_values_invert_rendering.
+
+Theorem from_format_offset_inverse : forall t colon,
+  t_has_tz t = true -> t_off t mod 60 = 0 -> Z.abs (t_off t) < 360000 ->
+  parse_offset (format_offset t colon) = Ok (t_off t).
+Proof. exact parse_format_offset. Qed.
+Print Assumptions from_format_offset_inverse.
+
+(* a narrower fraction token reads back the truncated value: SSS renders us/1000 and parses to (us/1000)*1000 *)
+Theorem from_format_fraction_truncates : forall zones v p,
+  0 <= v -> get_parsed_value zones [83;83;83] (render_0wd 3 v) p = Ok (set_micro (Some (v * 1000)) p).
+Proof. exact parsed_S3. Qed.
+Print Assumptions from_format_fraction_truncates.
+
+(* a string the anchored pattern does not match raises ValueError *)
+Theorem from_format_mismatch_raises : forall rs zones lname loc now time fmt names r,
+  find_locale lname = Some loc ->
+  forallb (fun p => match p with FLit _ => true | _ => false end) (ff_tokenize (S (length (re_escape fmt))) [] (re_escape fmt)) = false ->
+  parse_pattern loc fmt = Ok (names, r) -> has_dup names = false ->
+  search_anchored r time = false ->
+  parse rs zones lname now time fmt = Raise E_ValueError.
+Proof. exact parse_mismatch_valueerror. Qed.
+Print Assumptions from_format_mismatch_raises.
+
+Theorem from_format_all_fields_as_given : forall rs y m d hh mi ss us tz now,
+  check_parsed rs (mkparsed (Some y) (Some m) (Some d) (Some hh) (Some mi) (Some ss) (Some us) tz None None None None) now
+  = Ok (y, m, d, hh, mi, ss, us, tz).
+Proof. exact check_parsed_all. Qed.
+Print Assumptions from_format_all_fields_as_given.
+
+(* fields absent from the format: the date comes from `now` when no date field is given, a smaller unit restarts at 1 when a larger one is given, time fields default to 0 *)
+Theorem from_format_time_only_fills_date_from_now : forall rs hh mi ss us tz now,
+  check_parsed rs (mkparsed None None None hh mi ss us tz None None None None) now
+  = Ok (n_year now, n_month now, n_day now,
+        match hh with Some v => v | None => 0 end, match mi with Some v => v | None => 0 end,
+        match ss with Some v => v | None => 0 end, match us with Some v => v | None => 0 end, tz).
+Proof. exact check_parsed_time_only. Qed.
+Print Assumptions from_format_time_only_fills_date_from_now.
+
+Theorem from_format_year_only : forall rs y now,
+  check_parsed rs (mkparsed (Some y) None None None None None None None None None None None) now = Ok (y, 1, 1, 0, 0, 0, 0, None).
+Proof. exact check_parsed_year_only. Qed.
+Print Assumptions from_format_year_only.
+
+Theorem from_format_month_day_fills_year_from_now : forall rs m d now,
+  m <> 0 -> d <> 0 ->
+  check_parsed rs (mkparsed None (Some m) (Some d) None None None None None None None None None) now = Ok (n_year now, m, d, 0, 0, 0, 0, None).
+Proof. exact check_parsed_month_day. Qed.
+Print Assumptions from_format_month_day_fills_year_from_now.
+
+Theorem from_format_month_only : forall rs m now,
+  check_parsed rs (mkparsed None (Some m) None None None None None None None None None None) now = Ok (n_year now, m, 1, 0, 0, 0, 0, None).
+Proof. exact check_parsed_month_only. Qed.
+Print Assumptions from_format_month_only.
+
+Theorem from_format_day_only_fills_year_month_from_now : forall rs d now,
+  d <> 0 ->
+  check_parsed rs (mkparsed None None (Some d) None None None None None None None None None) now = Ok (n_year now, n_month now, d, 0, 0, 0, 0, None).
+Proof. exact check_parsed_day_only. Qed.
+Print Assumptions from_format_day_only_fills_year_month_from_now.
+
+(* the matching hypotheses of from_format_inverts_format_partial hold for a concrete DateTime (computed in the model) *)
+Theorem from_format_hypotheses_satisfiable : forall colon,
+  exists r, parse_pattern loc_en (iso_fmt colon) = Ok (iso_names colon, r)
+            /\ search_anchored r (iso_render colon iso_sample) = true
+            /\ sub_matches (S (length (iso_render colon iso_sample))) r (iso_render colon iso_sample) = Some [iso_caps colon iso_sample].
+Proof. exact iso_sample_matches. Qed.
+Print Assumptions from_format_hypotheses_satisfiable.
+
+(* from_format(dt.format(fmt), fmt) = dt's fields and offset for fmt = "YYYY-MM-DD HH:mm:ss.SSSSSS Z" (colon = true) or "... ZZ".
+   _partial: the regex matching step (r is the assembled pattern; the anchored search succeeds on the rendering; the re.sub pass finds one
+   match whose groups are the rendered tokens) is a hypothesis, validated on every run by the correspondence streams
+   roundtrip-full / nonmatching and satisfiable by from_format_hypotheses_satisfiable. Everything else is proved: the rendering, the pattern
+   assembly bookkeeping, _get_parsed_value on every group, the offset arithmetic and _check_parsed. *)
+Theorem from_format_inverts_format_partial : forall (rs : bool) (zones : list str) (now : pnow) (colon : bool) (t : pdt),
+  dt_in_range t -> 1000 <= t_year t <= 9999 ->
+  forall r : re,
+  parse_pattern loc_en (iso_fmt colon) = Ok (iso_names colon, r) ->
+  search_anchored r (iso_render colon t) = true ->
+  sub_matches (S (length (iso_render colon t))) r (iso_render colon t) = Some [iso_caps colon t] ->
+  bind (format [101;110] t (iso_fmt colon)) (fun s => parse rs zones [101;110] now s (iso_fmt colon)) =
+  Ok (t_year t, t_month t, t_day t, t_hour t, t_minute t, t_second t, t_micro t, Some (TzFixed (t_off t))).
+Proof. exact from_format_inverts_iso. Qed.
+Print Assumptions from_format_inverts_format_partial.
+
+(* KNOWN FINDING tr-cumartesi-prefix: 2024-07-06 (a Saturday) formatted with 'YYYY-MM-DD dddd' in locale tr parses back as Friday 2024-07-05 *)
+Theorem from_format_tr_saturday_refuted : roundtrip false [116;114] sample_dt tr_fmt = Ok (2024, 7, 5, 0, 0, 0, 0, None).
+Proof. exact tr_saturday_roundtrip. Qed.
+Print Assumptions from_format_tr_saturday_refuted.
+
+(* KNOWN FINDING from-format-escape-unprotected: 'YYYY[at]HH' *)
+Theorem from_format_bracket_escape_refuted : roundtrip false [101;110] sample_dt at_fmt = Raise E_ValueError.
+Proof. exact bracket_escape_roundtrip_fails. Qed.
+Print Assumptions from_format_bracket_escape_refuted.
+
+(* KNOWN FINDING from-format-backslash-escape *)
+Theorem from_format_backslash_escape_refuted : roundtrip false [101;110] sample_dt bs_fmt = Raise E_ValueError.
+Proof. exact backslash_escape_roundtrip_fails. Qed.
+Print Assumptions from_format_backslash_escape_refuted.
+
+(* KNOWN FINDING rs-ordinal-month-end: 'YYYY-DDDD' of 2020-02-29 round-trips with the Python parser and raises ParserError with the Rust one *)
+Theorem from_format_ordinal_month_end_rust_refuted : roundtrip false [101;110] leap_day doy_fmt = Ok (2020, 2, 29, 0, 0, 0, 0, None)
+  /\ roundtrip true [101;110] leap_day doy_fmt = Raise E_ParserError.
+Proof. exact ordinal_month_end_backends. Qed.
+Print Assumptions from_format_ordinal_month_end_rust_refuted.
+
+(* the methods modelled by hand are the ones this development was written against (ast fingerprints from the generator) *)
+Theorem hand_modelled_sources_pinned : List.length source_fingerprints = 16%nat.
+Proof. exact (f_equal (@List.length _) hand_modelled_sources_unchanged). Qed.
+Print Assumptions hand_modelled_sources_pinned.
